@@ -24,6 +24,7 @@ class Check(PropertyCheck):
     props_module = "Properties.Properties_C11"
     extra_targets = ["Extract/ExtractSchedC.vo"] + (list(getattr(schedx_part, "extra_targets", [])) if schedx_part else [])
     gen_files = ["SchedCTab.v"] + (list(getattr(schedx_part, "gen_files", [])) if schedx_part else [])
+    extra_props = list(getattr(schedx_part, "extra_props_c11", [])) if schedx_part else []
     trusted_base = [
         "Coq 8.16.1 kernel (coqc); no axioms (Print Assumptions: closed under the global context)",
         "translator lib/gen_schedc.py: guards can_*, TRANSM_THRESH, task_list order, pqueue_init capacities, "
